@@ -285,7 +285,8 @@ WORLDS.append(b.world([
 # ------------------------------------------------------------------------------------------------------------
 # W5  cells with arguments: formula changes, deletion / re-creation / renaming, cached flag, values, reached by
 #     name, through cached and uncached callers, by attribute path, through a reference bound to the cells
-#     object, and as derived cells of a sub space.
+#     object, and as derived cells of a sub space; a value assigned earlier at the key that is computed later (the
+#     assignment is dropped by a formula change / renaming / re-derivation), then a change of the reference read.
 b = B("cells-life")
 b.add("S = m.new_space('S')", "S.x = 1", cells("S", "f", "x + i", style="def", params="i"),
       cells("S", "g", "f(1) + f(2) * 10"), cells("S", "h", "g() + 100", style="def"),
@@ -319,6 +320,8 @@ WORLDS.append(b.world([
     e("del m.S.f.formula", "formula-delete"),
     e("m.S.f.doc = 'doc'", "formula-set", "doc"),
     e("m.S.sort_cells()", "cells-sort"),
+    sref("m.S", "x", 2),
+    e("m.Sub.f[2] = 60", "value-assign", "in-sub", "derived-cells"),
 ]))
 
 # ------------------------------------------------------------------------------------------------------------
@@ -399,6 +402,7 @@ WORLDS.append(b.world([
     e("m.S.clear_cells()", "value-clear", "space-wide", "computed-only"),
     e("m.clear_all()", "value-clear", "model-wide"),
     sref("m.S", "x", 2),
+    e("m.S.f.formula = %r" % fsrc("f", "f(n - 1) + x * 2 if n > 0 else 20", "def", "n"), "formula-set"),
 ]))
 
 # ------------------------------------------------------------------------------------------------------------
